@@ -389,8 +389,9 @@ class SourceFile:
 # --------------------------------------------------------------------------- fragment parsing
 
 class Item:
-    def __init__(self, relpath, container, name, props, occurrence, subst=(), provided=()):
+    def __init__(self, relpath, container, name, props, occurrence, subst=(), provided=(), serde=None):
         self.relpath, self.container, self.name, self.props, self.occurrence, self.subst = relpath, container, name, props, occurrence, tuple(subst)
+        self.serde = serde        # hash of the item's #[serde(..)] attributes the contract was written against (audited)
         self.provided = tuple(provided)   # D32: (relpath, trait name, fn name) of provided trait methods to materialise when the impl lacks them
         self.exec = []        # exec tokens (Tok; for R-originals region=(rs,re,rule))
         self.span = None      # (start,end) char span of item body in fragment text
@@ -401,7 +402,14 @@ class Item:
 class AssemblyError(Exception):
     pass
 
+PINS = {}
+
+def pin_sig(toks):
+    import hashlib
+    return hashlib.sha1(" ".join(t.text for t in normalise(toks)).encode()).hexdigest()[:10]
+
 def parse_fragment(text, fname):
+    PINS.pop(fname, None)
     toks = tokenize(text, markers=True)
     items = []
     cur = None
@@ -415,8 +423,9 @@ def parse_fragment(text, fname):
             if head[0] == "item":
                 if cur is not None:
                     raise AssemblyError("%s: nested //@ item at offset %d" % (fname, t.start))
-                props, occ, subst, provided = None, 0, [], []
+                props, occ, subst, provided, serde = None, 0, [], [], None
                 for p in parts[3:]:
+                    if p.startswith("serde="): serde = p[6:].strip()
                     if p.startswith("provided="):
                         for spec_ in p[9:].split(","):
                             rel_, tr_, fn_ = [x.strip() for x in spec_.split(":")]
@@ -426,8 +435,12 @@ def parse_fragment(text, fname):
                     if p.startswith("subst="):
                         for kv in p[6:].split(","):
                             k_, v_ = kv.split(":", 1); subst.append((k_.strip(), v_.strip()))
-                cur = Item(head[1].strip(), parts[1], parts[2], props, occ, subst, provided)
+                cur = Item(head[1].strip(), parts[1], parts[2], props, occ, subst, provided, serde)
                 cur.span = [t.end, None]
+            elif head[0] == "pin":
+                # `//@ pin <file> | <container> | <name> | <hash>`: an item of the repository that is NOT part of the verified text (it is
+                # outside the verifier's subset) but whose behaviour a stated assumption was read off; audited by hash
+                PINS.setdefault(fname, []).append((head[1].strip(), parts[1], parts[2], parts[3] if len(parts) > 3 else ""))
             elif head[0] == "end":
                 if cur is None:
                     raise AssemblyError("%s: //@ end without item" % fname)
@@ -480,7 +493,9 @@ def trusted_bodies(text):
                 and toks[i+4].text == "external_body" and toks[i+5].text == "]"):
             # a trusted trait-impl method whose SAME body is proved elsewhere under a precondition (D17 twin, marked by a
             # `D17-twin:` comment right above the attribute) may change: the twin receives the same change and is verified
-            if "D17-twin:" in text[max(0, toks[i].start - 400):toks[i].start].rsplit("}", 1)[-1]:
+            # (likewise `Kani-twin:`: the real body is checked by a Kani harness that is built from /repo's working tree on every run)
+            head_ = text[max(0, toks[i].start - 400):toks[i].start].rsplit("}", 1)[-1]
+            if "D17-twin:" in head_ or "Kani-twin:" in head_:
                 i += 6; continue
             j = i + 6
             # skip further attributes / qualifiers up to `fn`; stop at struct/enum/trait/impl (external_body on a type is not a function)
@@ -538,6 +553,7 @@ def assemble_fragment(text, fname, repo, stats, srcs):
         it.drift = True
         sm = difflib.SequenceMatcher(None, at, bt, autojunk=False)
         opcodes = widen_over_rewrites(sm.get_opcodes(), a, at, report, it)
+        opcodes = retarget_closing_braces(opcodes, at)
         for op, i1, i2, j1, j2 in opcodes:
             if op == "equal": continue
             new = " ".join(render_src(b[j1:j2]))
@@ -598,6 +614,38 @@ def assemble_fragment(text, fname, repo, stats, srcs):
     for (s, e, r) in sorted(edits, key=lambda x: (x[0], x[1]), reverse=True):
         out = out[:s] + r + out[e:]
     return out, items, report
+
+def retarget_closing_braces(opcodes, at):
+    """A deleted `}` inside a run `} } }` is only determined up to position.  When the repository removed a block's opening brace
+    (`if c { S }` -> `S`), delete the closing brace that MATCHES it in the fragment, so that spec text spliced after the other
+    braces stays where it belongs.  The resulting token sequence is identical; only which physical `}` goes is decided here."""
+    # matching over the fragment's exec tokens
+    match = {}
+    stack = []
+    for k, t in enumerate(at):
+        if t == "{": stack.append(k)
+        elif t == "}" and stack: match[k] = stack.pop()
+    gone_open = set()
+    for op, i1, i2, j1, j2 in opcodes:
+        if op == "delete":
+            gone_open |= {k for k in range(i1, i2) if at[k] == "{"}
+    if not gone_open:
+        return opcodes
+    out = []
+    for (op, i1, i2, j1, j2) in opcodes:
+        if op == "delete" and all(at[k] == "}" for k in range(i1, i2)):
+            r1, r2 = i1, i2
+            while r1 > 0 and at[r1 - 1] == "}": r1 -= 1
+            while r2 < len(at) and at[r2] == "}": r2 += 1
+            # is the whole run otherwise untouched (equal)?
+            others_deleted = any(o == "delete" and not (a1 == i1 and a2 == i2) and a1 < r2 and a2 > r1 for (o, a1, a2, _, _) in opcodes)
+            wanted = [k for k in range(r1, r2) if match.get(k) in gone_open]
+            if not others_deleted and len(wanted) == i2 - i1 and wanted != list(range(i1, i2)):
+                for k in wanted:
+                    out.append(("delete", k, k + 1, j1, j1))
+                continue
+        out.append((op, i1, i2, j1, j2))
+    return out
 
 def widen_over_rewrites(opcodes, a, at, report, it):
     """A repository change that cuts into a rewritten (R) region is widened to cover the whole region: the rewrite is then
@@ -687,6 +735,20 @@ def derive_set(toks):
         i += 1
     return out
 
+def serde_sig(toks):
+    """a short hash of all `#[serde(..)]` attributes among toks (item-level and field-level, in order): they select the
+    deserialiser helpers whose guarantees the trait-level preconditions (FromDeserialized::input_ok) assume"""
+    import hashlib
+    out = []
+    i, n = 0, len(toks)
+    while i + 3 < n:
+        if toks[i].text == "#" and toks[i+1].text == "[" and toks[i+2].text == "serde" and toks[i+3].text == "(":
+            c = match_close(toks, i + 1)
+            out.append(" ".join(t.text for t in toks[i:c+1]))
+            i = c
+        i += 1
+    return hashlib.sha1("\n".join(out).encode()).hexdigest()[:10] if out else None
+
 DERIVES_NOT_CARRIED = {"Debug", "Serialize", "Deserialize"}   # formatting / serde output: never on a verified path (D1)
 
 def audit_fragment(gen_text, fname, repo, srcs, stats=None):
@@ -703,6 +765,12 @@ def audit_fragment(gen_text, fname, repo, srcs, stats=None):
             fa, ra = derive_set(it.exec), derive_set(stoks)
             if fa - ra - DERIVES_NOT_CARRIED:
                 raise AssemblyError("audit mismatch in %s: the fragment derives %s, the repository does not" % (it.name, sorted(fa - ra - DERIVES_NOT_CARRIED)))
+            sg = serde_sig(stoks)
+            if it.serde is not None and sg != it.serde:
+                raise AssemblyError("conflict: the #[serde(..)] attributes of %s changed (%s -> %s): they name the deserialiser helpers whose guarantees the "
+                                    "contracts assume - re-examine the assumption" % (it.name, it.serde, sg))
+            if it.serde is None and sg is not None and stats is not None:
+                stats.setdefault("serde_attrs_not_pinned", []).append(it.name)
             missing = ra - fa - DERIVES_NOT_CARRIED
             if missing and stats is not None:
                 stats.setdefault("derives_not_carried", []).append("%s: %s" % (it.name, ",".join(sorted(missing))))
@@ -713,6 +781,20 @@ def audit_fragment(gen_text, fname, repo, srcs, stats=None):
             diffs = [(op, " ".join(a[i1:i2]), " ".join(b[j1:j2])) for op, i1, i2, j1, j2 in sm.get_opcodes() if op != "equal"]
             raise AssemblyError("audit mismatch in %s::%s: %s" % (it.container, it.name, diffs[:3]))
         n += len(b)
+    for (rel, cont, name, h) in PINS.get(fname, []):
+        if (rel, ()) not in srcs:
+            pth = os.path.join(repo, rel)
+            if not os.path.exists(pth):
+                raise AssemblyError("lost anchor: pinned file %s missing" % rel)
+            srcs[(rel, ())] = SourceFile(pth, ())
+        ptoks = srcs[(rel, ())].find(cont, name)
+        if ptoks is None:
+            raise AssemblyError("lost anchor: pinned item %s | %s | %s not found" % (rel, cont, name))
+        sg = pin_sig(ptoks)
+        if sg != h:
+            raise AssemblyError("conflict: the pinned item `%s` of %s changed (%s -> %s): a stated assumption was read off its text - re-examine the assumption" % (name, rel, h or "-", sg))
+        if stats is not None:
+            stats["pinned_items"] = stats.get("pinned_items", 0) + 1
     return n
 
 def assemble_unit(fragments, repo, outpath=None):
@@ -879,6 +961,9 @@ def make_canaries(text):
     for k, f in enumerate(cand):
         o, c = f["body"]
         seen = set(t.text for t in toks[o:c + 1] if IDENT.fullmatch(t.text))
+        # indexing syntax `x[i]` calls Index::index / IndexMut::index_mut without naming them
+        if any(toks[q].text == "[" and q > o and (IDENT.fullmatch(toks[q-1].text) or toks[q-1].text in (")", "]")) for q in range(o, c + 1)):
+            seen |= {"index", "index_mut"}
         for nm in seen:
             for j in byname.get(nm, []):
                 if j != k:
